@@ -707,6 +707,14 @@ def bind_contexts(ctx):
                      ids_of(lambda v: v in subset), len(subset)),
                     ("in-empty", col.in_([]), [], 0),
                 ]
+                # explicitly named expanding parameters whose NAME needs escaping
+                bname = rng.choice(["x.y", "a[0]", "p:q", "plain_bp", "sp ace"]) + str(ci)
+                preds.append(("in-named-bindparam", col.in_(sa.bindparam(bname, expanding=True)),
+                              ids_of(lambda v: v in subset), len(subset)))
+                if tn in ("Integer", "Tag", "Date", "DateTime", "Boolean"):
+                    # rendered in the SQL at execution time (post-compile, literal_execute)
+                    preds.append(("in-named-literal-execute", col.in_(sa.bindparam(bname + "L", expanding=True, literal_execute=True)),
+                                  ids_of(lambda v: v in subset), len(subset)))
                 if tn not in ("Enum", "Boolean", "LargeBinary", "Tag"):
                     lo, hi = sorted(vals)[1], sorted(vals)[2]
                     preds.append(("between", col.between(lo, hi), ids_of(lambda v: lo <= v <= hi), 2))
@@ -716,9 +724,20 @@ def bind_contexts(ctx):
                     pairs = [(vals[i], ovals[i]) for i in sorted(rng.sample(range(4), 2))]
                     preds.append(("tuple-in", sa.tuple_(col, ocol).in_(pairs),
                                   [i + 1 for i in range(4) if (vals[i], ovals[i]) in pairs], None))
+                    tname = rng.choice(["t.u", "t[1]", "t:u", "plain_tp"]) + str(ci)
+                    preds.append(("tuple-in-named-bindparam", sa.tuple_(col, ocol).in_(sa.bindparam(tname, expanding=True)),
+                                  [i + 1 for i in range(4) if (vals[i], ovals[i]) in pairs], None))
                 for pname, pred, expected, nbinds in preds:
                     stmt = sa.select(t.c.id).where(pred).order_by(t.c.id)
-                    params = {"bp_%d" % ci: list(subset)} if pname == "in-bindparam-expanding" else {}
+                    params = {}
+                    if pname == "in-bindparam-expanding":
+                        params = {"bp_%d" % ci: list(subset)}
+                    elif pname == "in-named-bindparam":
+                        params = {bname: list(subset)}
+                    elif pname == "in-named-literal-execute":
+                        params = {bname + "L": list(subset)}
+                    elif pname == "tuple-in-named-bindparam":
+                        params = {tname: list(pairs)}
                     del calls[:]
                     with warnings.catch_warnings():
                         warnings.simplefilter("ignore")
@@ -738,7 +757,8 @@ def bind_contexts(ctx):
                         ctx.violation("c09-oracle:typedecorator-bind-once:" + pname, case,
                                       "column %r %s: %d process_bind_param calls for %d bound values" % (nm, pname, len(calls), nbinds))
                     # processors of the expanded elements vs the model
-                    if pname in ("in", "not-in", "in-bindparam-expanding") and not isinstance(got, str):
+                    if pname in ("in", "not-in", "in-bindparam-expanding", "in-named-bindparam", "tuple-in",
+                                 "tuple-in-named-bindparam") and not isinstance(got, str):
                         try:
                             comp = stmt.compile(eng)
                             # as DefaultExecutionContext does it (unescaped parameter names)
@@ -749,7 +769,17 @@ def bind_contexts(ctx):
                                 if not bind.expanding:
                                     continue
                                 esc = comp.escaped_bind_names.get(uname, uname)
-                                nel = len(params.get(bind.key, bind.value) or [])
+                                elems = params.get(bind.key, bind.value) or []
+                                nel = len(elems)
+                                if pname.startswith("tuple"):
+                                    # per tuple position: does that column's type have a bind processor
+                                    mask = ["1" if c_.type._cached_bind_processor(eng.dialect) is not None else "0" for c_ in (col, ocol)]
+                                    got_p = ["1" if ("%s_%d_%d" % (esc, i_ + 1, j_ + 1)) in st.processors else "0"
+                                             for i_ in range(nel) for j_ in range(2)]
+                                    corr_cases.append(dict(case, bind=uname, escaped=esc))
+                                    impl.append(",".join(got_p) if got_p else "-")
+                                    reqs.append("types expandt %s %d %d" % ("".join(mask), 1 if esc != uname else 0, nel))
+                                    continue
                                 got_p = ["1" if ("%s_%d" % (esc, j + 1)) in st.processors else "0" for j in range(nel)]
                                 corr_cases.append(dict(case, bind=uname, escaped=esc))
                                 impl.append(",".join(got_p) if got_p else "-")
